@@ -188,7 +188,7 @@ let () =
                    if ops <> [] then TUpload (n, next_creat ()) else m0
                  | x -> x) in
              let (oa, sa) = tight_step v_tight_tree ftproot !sta m1 in
-             let (ob, sb) = tight_step v_tight_fixed ftproot !stb m1 in
+             let (ob, sb) = tight_step v_tight_prefix ftproot !stb m1 in
              sta := sa; stb := sb;
              let la = List.map op_line oa and lb = List.map op_line ob in
              List.iter print_endline la;
